@@ -67,6 +67,65 @@ fn gen(profile: &str, n: usize, lo: i128, hi: i128, r: &mut Rng) -> Vec<i128> {
     let zero = if lo <= 0 && hi >= 0 { 0 } else { lo };
     let clamp = |x: i128| x.max(lo).min(hi);
     let mut v = Vec::with_capacity(n);
+    // ---- width sweeps: "w<k>", "dw<k>", "bs<k>" (k = a bit width the container can choose)
+    if let Some(k) = profile.strip_prefix("dw").and_then(|x| x.parse::<u32>().ok()) {
+        // sorted, adjacent differences spanning exactly k bits: the largest one (2^k - 1, top bit of the
+        // delta field set) right at the start, in the middle and as the very last step
+        let big = (1i128 << k) - 1;
+        let nbig = 3.min(n.saturating_sub(1)) as i128;
+        let small_max = (((hi - lo) - nbig * big) / (n as i128 + 1)).min(big).max(0);
+        let mut x = lo;
+        for i in 0..n {
+            v.push(clamp(x));
+            let step = if i == 0 || i + 2 == n || i == n / 2 { big } else { rand_in(r, 0, small_max.min(1 << 20)) };
+            x = clamp(x + step);
+        }
+        return v;
+    }
+    if let Some(k) = profile.strip_prefix("bs").and_then(|x| x.parse::<u32>().ok()) {
+        // block-structured: the block bases span exactly k bits (top bit set in the upper half of the
+        // blocks), the offsets inside a block are tiny; the last (partial) block sits at the very top
+        let top = ((1i128 << k) - 1).min(span);
+        let nb = (n + 63) / 64;
+        for i in 0..n {
+            let b = i / 64;
+            let base = if b + 1 == nb {
+                top - 15
+            } else if b % 2 == 1 {
+                top / 2 + 1 + rand_in(r, 0, (top / 2 - 16).max(0))
+            } else {
+                rand_in(r, 0, (top / 2 - 16).max(0))
+            };
+            v.push(clamp(lo + base.max(0) + rand_in(r, 0, 15)));
+        }
+        if n > 0 {
+            v[0] = lo; // the smallest base is the domain's minimum
+        }
+        return v;
+    }
+    if let Some(k) = profile.strip_prefix('w').and_then(|x| x.parse::<u32>().ok()) {
+        // unsorted values whose range is exactly k bits wide: offsets 0 and 2^k - 1 both present, more than
+        // half of the offsets have the top bit of the k-bit field set; the base alternates between the
+        // bottom and the top of the domain (for signed types: all negative / all non-negative)
+        let top = ((1i128 << k) - 1).min(span);
+        let base = if k % 2 == 0 || lo + top > hi { lo } else if lo < 0 && top <= hi { 0 } else { hi - top };
+        for i in 0..n {
+            let off = match i % 4 {
+                0 => rand_in(r, 0, top),
+                _ => rand_in(r, top / 2 + (top & 1), top),
+            };
+            v.push(clamp(base + off));
+        }
+        if n >= 2 {
+            let (a, b) = (r.below(n as u64) as usize, n - 1);
+            v[a] = base;
+            v[b] = clamp(base + top); // the last element carries the all-ones offset
+            if a == b {
+                v[0] = base;
+            }
+        }
+        return v;
+    }
     match profile {
         "const_lo" => v.resize(n, lo),
         "const_hi" => v.resize(n, hi),
@@ -256,6 +315,38 @@ trait Cont {
     fn finish(&mut self) -> Option<Result<(), String>> {
         None
     }
+    // ---- further entry points (None = not offered by the type)
+    fn is_empty(&self) -> Option<bool> {
+        None
+    }
+    fn back(&self) -> Option<Rd> {
+        None
+    }
+    fn clear(&mut self) -> Option<()> {
+        None
+    }
+    fn resize(&mut self, _n: usize) -> Option<()> {
+        None
+    }
+    fn shrink(&mut self) -> Option<()> {
+        None
+    }
+    /// Clone::clone
+    fn dup(&self) -> Option<Box<dyn Cont>> {
+        None
+    }
+    /// the complete content read through another public view of the same object
+    fn other_view(&self) -> Option<Vec<String>> {
+        None
+    }
+    /// build a second container from ys and swap contents with it
+    fn swap_new(&mut self, _ys: &[i128]) -> Option<()> {
+        None
+    }
+    /// extra events recorded during construction (logged right after the build event)
+    fn notes(&mut self) -> Vec<Value> {
+        vec![]
+    }
     /// the decimal string of input number x as the typed value handed to the container
     fn show(&self, x: i128) -> String;
 }
@@ -265,6 +356,12 @@ struct IV<T: PackedInt + Ty>(IntVec<T>);
 impl<T: PackedInt + Ty> Cont for IV<T> {
     fn len(&self) -> usize {
         self.0.len()
+    }
+    fn is_empty(&self) -> Option<bool> {
+        Some(self.0.is_empty())
+    }
+    fn dup(&self) -> Option<Box<dyn Cont>> {
+        Some(Box::new(IV(self.0.clone())))
     }
     fn get(&self, i: usize) -> Rd {
         match self.0.get(i) {
@@ -295,6 +392,9 @@ struct UV(UintVector);
 impl Cont for UV {
     fn len(&self) -> usize {
         self.0.len()
+    }
+    fn is_empty(&self) -> Option<bool> {
+        Some(self.0.is_empty())
     }
     fn get(&self, i: usize) -> Rd {
         match self.0.get(i) {
@@ -349,6 +449,33 @@ impl Cont for M0 {
     fn len(&self) -> usize {
         self.v.size()
     }
+    fn is_empty(&self) -> Option<bool> {
+        Some(self.v.is_empty())
+    }
+    fn back(&self) -> Option<Rd> {
+        Some(Rd::Val(self.min.plus(self.v.back())))
+    }
+    fn clear(&mut self) -> Option<()> {
+        self.v.clear();
+        // clear() resets the width; a vector that is filled again stores raw values
+        self.min = match self.min {
+            Min::Usize(_) => Min::Usize(0),
+            Min::U32(_) => Min::U32(0),
+            Min::I32(_) => Min::I32(0),
+        };
+        Some(())
+    }
+    fn resize(&mut self, n: usize) -> Option<()> {
+        self.v.resize(n);
+        Some(())
+    }
+    fn shrink(&mut self) -> Option<()> {
+        self.v.shrink_to_fit();
+        Some(())
+    }
+    fn dup(&self) -> Option<Box<dyn Cont>> {
+        Some(Box::new(M0 { v: self.v.clone(), min: self.min }))
+    }
     fn get(&self, i: usize) -> Rd {
         Rd::Val(self.min.plus(self.v.get(i)))
     }
@@ -393,6 +520,38 @@ impl Cont for ZI {
     fn len(&self) -> usize {
         self.v.size()
     }
+    fn is_empty(&self) -> Option<bool> {
+        Some(self.v.is_empty())
+    }
+    fn back(&self) -> Option<Rd> {
+        Some(Rd::Val(self.v.back().to_string()))
+    }
+    fn clear(&mut self) -> Option<()> {
+        self.v.clear();
+        Some(())
+    }
+    fn resize(&mut self, n: usize) -> Option<()> {
+        self.v.resize(n);
+        Some(())
+    }
+    fn shrink(&mut self) -> Option<()> {
+        self.v.shrink_to_fit();
+        Some(())
+    }
+    fn dup(&self) -> Option<Box<dyn Cont>> {
+        Some(Box::new(ZI { v: self.v.clone(), u32_: self.u32_ }))
+    }
+    fn other_view(&self) -> Option<Vec<String>> {
+        // inner() exposes the offsets, min_val() the base
+        let (inner, m) = (self.v.inner(), self.v.min_val());
+        Some((0..inner.size()).map(|i| m.wrapping_add(inner.get(i)).to_string()).collect())
+    }
+    fn swap_new(&mut self, ys: &[i128]) -> Option<()> {
+        let vals: Vec<usize> = ys.iter().map(|&x| x as usize).collect();
+        let mut other = ZipIntVec::build_from_usize(&vals);
+        self.v.swap(&mut other);
+        Some(())
+    }
     fn get(&self, i: usize) -> Rd {
         Rd::Val(self.v.get(i).to_string())
     }
@@ -436,6 +595,7 @@ impl Cont for ZI {
 struct SV {
     b: Option<SortedUintVecBuilder>,
     v: Option<SortedUintVec>,
+    notes: Vec<Value>,
 }
 impl SV {
     fn vec(&self) -> &SortedUintVec {
@@ -478,10 +638,22 @@ impl Cont for SV {
         })
     }
     fn push(&mut self, x: i128) -> Option<Result<(), String>> {
-        Some(self.b.as_mut().expect("builder").push(x as u64).map_err(|e| e.to_string()))
+        Some(self.b.as_mut()?.push(x as u64).map_err(|e| e.to_string()))
+    }
+    fn is_empty(&self) -> Option<bool> {
+        Some(match (&self.v, &self.b) {
+            (Some(v), _) => v.is_empty(),
+            (_, Some(b)) => b.is_empty(),
+            _ => true,
+        })
+    }
+    fn notes(&mut self) -> Vec<Value> {
+        std::mem::take(&mut self.notes)
     }
     fn finish(&mut self) -> Option<Result<(), String>> {
         let b = self.b.take()?;
+        // what the builder reports right before finish()
+        self.notes.push(json!({"op":"len","of":"builder","n":b.len(),"empty":b.is_empty()}));
         Some(match b.finish() {
             Ok(v) => {
                 self.v = Some(v);
@@ -495,12 +667,28 @@ impl Cont for SV {
     }
 }
 const SORTED_CFGS: &[&str] = &["default", "perf", "mem", "wide", "odd"];
+/// every preset with use_simd flipped, the narrowest legal widths (8/16), and the memory-pool constructor:
+/// bound at three block sizes (b6 only for the pool)
+const SORTED_TWINS: &[&str] = &["default_ns", "perf_ns", "mem_s", "wide_ns", "odd_s", "min", "min_ns", "pool"];
 fn sorted_cfg(variant: &str) -> SortedUintVecConfig {
-    // variant = "<cfg>:b<log2>"
+    // variant = "<cfg>:b<log2>"; <cfg> may carry a suffix _s / _ns (use_simd on / off), or be
+    // "sw<sample_width>o<offset_width>" of the width sweep
     let mut it = variant.split(':');
-    let c = it.next().unwrap_or("default");
+    let c0 = it.next().unwrap_or("default");
     let log2: u8 = it.next().and_then(|b| b[1..].parse().ok()).unwrap_or(6);
+    let (c, simd) = match c0 {
+        x if x.ends_with("_ns") => (&x[..x.len() - 3], Some(false)),
+        x if x.ends_with("_s") => (&x[..x.len() - 2], Some(true)),
+        x => (x, None),
+    };
+    if let Some(rest) = c.strip_prefix("sw") {
+        let mut q = rest.split('o');
+        let sw: u8 = q.next().and_then(|x| x.parse().ok()).unwrap_or(32);
+        let ow: u8 = q.next().and_then(|x| x.parse().ok()).unwrap_or(16);
+        return SortedUintVecConfig { log2_block_units: log2, offset_width: ow, sample_width: sw, use_simd: simd.unwrap_or(true) };
+    }
     let mut cfg = match c {
+        "min" => SortedUintVecConfig { log2_block_units: 6, offset_width: 8, sample_width: 16, use_simd: true },
         "perf" => SortedUintVecConfig::performance_optimized(),
         "mem" => SortedUintVecConfig::memory_optimized(),
         "wide" => SortedUintVecConfig { log2_block_units: 6, offset_width: 32, sample_width: 64, use_simd: true },
@@ -509,6 +697,9 @@ fn sorted_cfg(variant: &str) -> SortedUintVecConfig {
         _ => SortedUintVecConfig::default(),
     };
     cfg.log2_block_units = log2;
+    if let Some(f) = simd {
+        cfg.use_simd = f;
+    }
     cfg
 }
 
@@ -526,16 +717,30 @@ fn subjects() -> Vec<String> {
     }
     v.push("uintvec:build_from".into());
     v.push("uintvec:push".into());
-    for t in ["usize", "u32", "i32", "push"] {
+    v.push("uintvec:with_capacity".into());
+    for t in ["usize", "u32", "i32", "push", "new_set", "resize_set", "risk"] {
         v.push(format!("uvm0:{t}"));
     }
-    for t in ["usize", "u32", "push"] {
+    for t in ["usize", "u32", "push", "new_set", "resize_set", "risk"] {
         v.push(format!("zipint:{t}"));
     }
     for c in SORTED_CFGS {
         for b in 4..=8 {
             v.push(format!("sorted:{c}:b{b}"));
         }
+    }
+    for c in SORTED_TWINS {
+        for b in [4, 6, 8] {
+            if *c != "pool" || b == 6 {
+                v.push(format!("sorted:{c}:b{b}"));
+            }
+        }
+    }
+    // every sample_width 16..64 with offset widths 8..32, both use_simd settings, all block sizes
+    v.push("sorted:sweep".into());
+    // the constructors of empty containers (new / new_empty / default / with_config)
+    for f in ["intvec", "uintvec", "uvm0", "zipint", "sorted"] {
+        v.push(format!("{f}:empty"));
     }
     v
 }
@@ -550,12 +755,13 @@ fn group_of(name: &str) -> String {
     let p: Vec<&str> = name.split(':').collect();
     match p[0] {
         "intvec" => format!("intvec:{}", p[1]),
-        "sorted" => format!("sorted:{}", p[1]),
+        _ if p[1] == "empty" => "empty".to_string(),
+        "sorted" => format!("sorted:{}", p[1].trim_end_matches("_ns").trim_end_matches("_s")),
         f => f.to_string(),
     }
 }
 fn incremental(name: &str) -> bool {
-    name.ends_with(":push")
+    name.ends_with(":push") || name.ends_with(":with_capacity")
 }
 
 /// value domains of a subject: (label, lo, hi)
@@ -576,10 +782,14 @@ fn domains(name: &str) -> Vec<(&'static str, i128, i128)> {
         ("uintvec", _) => vec![of::<u32>()],
         // UintVecMin0 / ZipIntVec document a 58-bit fast path: both the documented range and all 64 bits
         ("uvm0", "usize") | ("uvm0", "push") | ("zipint", "usize") | ("zipint", "push") => {
-            vec![("u58", 0, (1i128 << 58) - 1), ("u64", 0, u64::MAX as i128), ("u20", 0, (1 << 20) - 1)]
+            vec![("u58", 0, (1i128 << 58) - 1), ("u64", 0, u64::MAX as i128)]
         }
+        ("uvm0", "risk") | ("zipint", "risk") => vec![("u58", 0, (1i128 << 58) - 1)],
         ("uvm0", "u32") | ("zipint", "u32") => vec![of::<u32>()],
         ("uvm0", "i32") => vec![of::<i32>()],
+        ("uvm0", "new_set") | ("uvm0", "resize_set") | ("zipint", "new_set") | ("zipint", "resize_set") => {
+            vec![("u64", 0, u64::MAX as i128)]
+        }
         ("sorted", c) => {
             let sw = sorted_cfg(c).sample_width as u32;
             let fit = ("fit", 0i128, (1i128 << sw.min(64)) - 1);
@@ -631,6 +841,76 @@ fn build(name: &str, xs: &[i128]) -> Result<Box<dyn Cont>, String> {
             let (v, m) = UintVecMin0::build_from_i32(&vals);
             Ok(Box::new(M0 { v, min: Min::I32(m) }))
         }
+        // new(num, max_val) and then set() every element
+        ("uvm0", "new_set") | ("uvm0", "resize_set") => {
+            let vals: Vec<usize> = xs.iter().map(|&x| x as usize).collect();
+            let max = vals.iter().copied().max().unwrap_or(0);
+            let mut v = if p[1] == "new_set" {
+                UintVecMin0::new(vals.len(), max)
+            } else {
+                // an empty vector sized by resize_with_wire_max_val / resize_with_uintbits (alternating)
+                let mut v = UintVecMin0::new_empty();
+                if vals.len() % 2 == 0 {
+                    v.resize_with_wire_max_val(vals.len(), max);
+                } else {
+                    v.resize_with_uintbits(vals.len(), UintVecMin0::compute_uintbits(max));
+                }
+                v
+            };
+            for (i, &x) in vals.iter().enumerate() {
+                v.set(i, x);
+            }
+            Ok(Box::new(M0 { v, min: Min::Usize(0) }))
+        }
+        // the packed bytes of a built vector handed to a fresh one through risk_set_data (fast path widths only)
+        ("uvm0", "risk") | ("zipint", "risk") => {
+            let vals: Vec<usize> = xs.iter().map(|&x| x as usize).collect();
+            let (src, m) = UintVecMin0::build_from_usize(&vals);
+            let (bits, n) = (src.uintbits(), src.size());
+            if bits > 58 {
+                return Err("risk_set_data: documented limit of 58 bits".into());
+            }
+            let size = UintVecMin0::compute_mem_size(bits, n);
+            let mut buf = vec![0u8; size].into_boxed_slice();
+            let k = size.min(src.data().len());
+            buf[..k].copy_from_slice(&src.data()[..k]);
+            let ptr = Box::into_raw(buf) as *mut u8;
+            if p[0] == "uvm0" {
+                let mut v = UintVecMin0::new_empty();
+                // SAFETY: ptr owns exactly compute_mem_size(bits, n) bytes from the global allocator
+                unsafe { v.risk_set_data(ptr, n, bits) };
+                Ok(Box::new(M0 { v, min: Min::Usize(m) }))
+            } else {
+                let mut v = ZipIntVec::new_empty();
+                // SAFETY: as above
+                unsafe { v.risk_set_data(ptr, n, m, bits) };
+                Ok(Box::new(ZI { v, u32_: false }))
+            }
+        }
+        // new(num, min, max) / resize_with_range on an empty vector, then set() every element
+        ("zipint", "new_set") | ("zipint", "resize_set") => {
+            let vals: Vec<usize> = xs.iter().map(|&x| x as usize).collect();
+            let (mn, mx) = (vals.iter().copied().min().unwrap_or(0), vals.iter().copied().max().unwrap_or(0));
+            // the range constructors require min < max
+            let (mn, mx) = if mn < mx {
+                (mn, mx)
+            } else if mx < usize::MAX {
+                (mn, mx + 1)
+            } else {
+                (mn - 1, mx)
+            };
+            let mut v = if p[1] == "new_set" {
+                ZipIntVec::new(vals.len(), mn, mx)
+            } else {
+                let mut v = ZipIntVec::new_empty();
+                v.resize_with_range(vals.len(), mn, mx);
+                v
+            };
+            for (i, &x) in vals.iter().enumerate() {
+                v.set(i, x);
+            }
+            Ok(Box::new(ZI { v, u32_: false }))
+        }
         ("zipint", "usize") => {
             let vals: Vec<usize> = xs.iter().map(|&x| x as usize).collect();
             Ok(Box::new(ZI { v: ZipIntVec::build_from_usize(&vals), u32_: false }))
@@ -638,6 +918,19 @@ fn build(name: &str, xs: &[i128]) -> Result<Box<dyn Cont>, String> {
         ("zipint", "u32") => {
             let vals: Vec<u32> = xs.iter().map(|&x| x as u32).collect();
             Ok(Box::new(ZI { v: ZipIntVec::build_from_u32(&vals), u32_: true }))
+        }
+        ("sorted", _) if xs.len() % 2 == 1 => {
+            // odd lengths go through extend(), the twin of push()
+            let mut b = SortedUintVecBuilder::with_config(sorted_cfg(variant_of(name)));
+            if let Err(e) = b.extend(xs.iter().map(|&x| x as u64)) {
+                return Err(format!("push refused: {e}"));
+            }
+            let mut c: Box<dyn Cont> = Box::new(SV { b: Some(b), v: None, notes: vec![json!({"op":"note","via":"extend"})] });
+            match c.finish() {
+                Some(Ok(())) => Ok(c),
+                Some(Err(e)) => Err(e),
+                None => Err("no finish".into()),
+            }
         }
         ("sorted", _) => {
             let mut c = empty(name).ok_or("no builder")?;
@@ -663,7 +956,16 @@ fn empty(name: &str) -> Option<Box<dyn Cont>> {
         ("uintvec", "push") => Some(Box::new(UV(UintVector::new()))),
         ("uvm0", "push") => Some(Box::new(M0 { v: UintVecMin0::new_empty(), min: Min::Usize(0) })),
         ("zipint", "push") => Some(Box::new(ZI { v: ZipIntVec::new_empty(), u32_: false })),
-        ("sorted", _) => Some(Box::new(SV { b: Some(SortedUintVecBuilder::with_config(sorted_cfg(variant_of(name)))), v: None })),
+        ("sorted", c) => {
+            let mut b = SortedUintVecBuilder::with_config(sorted_cfg(variant_of(name)));
+            if c == "pool" {
+                // SecureMemoryPool::new hands out an Arc; the builder wants the pool by value
+                let pool = zipora::memory::SecureMemoryPool::new(zipora::memory::SecurePoolConfig::small_secure()).ok()?;
+                b = b.with_pool(std::sync::Arc::try_unwrap(pool).ok()?);
+            }
+            Some(Box::new(SV { b: Some(b), v: None, notes: vec![] }))
+        }
+        ("uintvec", "with_capacity") => Some(Box::new(UV(UintVector::with_capacity(100)))),
         _ => None,
     }
 }
@@ -857,7 +1159,11 @@ fn read_all(tr: &mut Tracer, st: &mut Stats, c: &dyn Cont, n_in: usize, r: &mut 
             return false;
         }
     }
-    put(tr, st, json!({"op":"len","n":n}));
+    let mut le = json!({"op":"len","n":n});
+    if let Ok(Some(b)) = guard(|| c.is_empty()) {
+        le["empty"] = json!(b);
+    }
+    put(tr, st, le);
     let mut g: Vec<Value> = vec![];
     // a few single in-range reads
     if n > 0 {
@@ -983,6 +1289,11 @@ fn bulk_case(tr: &mut Tracer, st: &mut Stats, a: &Args, name: &str, dom: &str, p
     st.builds += 1;
     let shown: Vec<String> = xs.iter().map(|&x| c.show(x)).collect();
     put(tr, st, json!({"op":"build","xs":shown,"ok":true}));
+    for e in c.notes() {
+        if e["op"] != "note" {
+            put(tr, st, e);
+        }
+    }
     if !xs.is_empty() {
         st.runs_nontrivial += 1;
     }
@@ -1007,10 +1318,33 @@ fn bulk_case(tr: &mut Tracer, st: &mut Stats, a: &Args, name: &str, dom: &str, p
         }
     }
     if !dead {
-        let full2 = xs.len() <= 130 || (a.thorough() && xs.len() <= 1000);
+        let full2 = xs.len() <= 300 || (dom == "sweep" && xs.len() <= 700) || (a.thorough() && xs.len() <= 1000);
         if !read_all(tr, st, c.as_ref(), xs.len(), r, full2) {
             dead = true;
         }
+        // Clone::clone of every strategy's representation (IntVec: raw / min-max / delta / block-based with
+        // its index): the copy must read back the same
+        let n = xs.len();
+        if !dead && !sets && fam_of(name) == "intvec" && (n == 64 || n == 129 || (1000..=1200).contains(&n) || (a.thorough() && n <= 10100)) {
+            match guard(|| c.dup()) {
+                Ok(Some(d)) => match full_read(d.as_ref(), n + 4) {
+                    Ok(out) => {
+                        put(tr, st, json!({"op":"maintain","what":"clone","out":out}));
+                    }
+                    Err(e) => {
+                        put(tr, st, e);
+                        std::mem::forget(d);
+                    }
+                },
+                Ok(None) => {}
+                Err(m) => {
+                    put(tr, st, panic_ev("clone", &m, json!({})));
+                }
+            }
+        }
+    }
+    if !dead && sets {
+        dead = !maintenance(tr, st, &mut c, xs, r);
     }
     if !dead && sets {
         // an out-of-range set must be refused (documented panic); ends the run
@@ -1032,6 +1366,173 @@ fn bulk_case(tr: &mut Tracer, st: &mut Stats, a: &Args, name: &str, dom: &str, p
     if dead {
         std::mem::forget(c);
     }
+}
+
+fn ev_back(c: &dyn Cont) -> Option<Value> {
+    match guard(|| c.back()) {
+        Ok(None) => None,
+        Ok(Some(Rd::Val(v))) => Some(json!({"op":"back","r":[v],"how":"value"})),
+        Ok(Some(_)) => Some(json!({"op":"back","r":[],"how":"err"})),
+        Err(m) => Some(json!({"op":"back","r":[],"how":"panic","msgk":msgk(&m),"msg":m})),
+    }
+}
+/// the complete read-back as a list of strings (None after a panic)
+fn full_read(c: &dyn Cont, cap: usize) -> Result<Vec<Value>, Value> {
+    let e = ev_readback(c, cap, "get");
+    if e["op"] == "panic" {
+        Err(e)
+    } else {
+        Ok(e["out"].as_array().cloned().unwrap_or_default())
+    }
+}
+
+/// the other entry points of a built container, where offered: back, shrink_to_fit, clone, a second view,
+/// resize (shrinking and growing), push after resize, swap, clear, refill.  Returns false when a panic
+/// ended the run.
+fn maintenance(tr: &mut Tracer, st: &mut Stats, c: &mut Box<dyn Cont>, xs: &[i128], r: &mut Rng) -> bool {
+    let cap = xs.len() + 64;
+    if let Some(e) = ev_back(c.as_ref()) {
+        put(tr, st, e);
+    }
+    if let Ok(Some(())) = guard(|| c.shrink()) {
+        match full_read(c.as_ref(), cap) {
+            Ok(out) => put(tr, st, json!({"op":"maintain","what":"shrink_to_fit","out":out})),
+            Err(e) => {
+                put(tr, st, e);
+                return false;
+            }
+        };
+    }
+    match guard(|| c.dup()) {
+        Ok(Some(d)) => match full_read(d.as_ref(), cap) {
+            Ok(out) => {
+                put(tr, st, json!({"op":"maintain","what":"clone","out":out}));
+            }
+            Err(e) => {
+                put(tr, st, e);
+                std::mem::forget(d);
+                return false;
+            }
+        },
+        Ok(None) => {}
+        Err(m) => {
+            put(tr, st, panic_ev("clone", &m, json!({})));
+            return false;
+        }
+    }
+    match guard(|| c.other_view()) {
+        Ok(Some(out)) => {
+            put(tr, st, json!({"op":"maintain","what":"inner+min_val","out":out}));
+        }
+        Ok(None) => {}
+        Err(m) => {
+            put(tr, st, panic_ev("other_view", &m, json!({})));
+            return false;
+        }
+    }
+    // resize: shrink, then grow beyond the old length, then append
+    let n = xs.len();
+    for target in [n - n / 3, n + 5] {
+        match guard(|| c.resize(target)) {
+            Ok(Some(())) => match full_read(c.as_ref(), cap) {
+                Ok(out) => {
+                    put(tr, st, json!({"op":"resize","n":target,"out":out}));
+                }
+                Err(e) => {
+                    put(tr, st, e);
+                    return false;
+                }
+            },
+            Ok(None) => break,
+            Err(m) => {
+                put(tr, st, panic_ev("resize", &m, json!({"n":target})));
+                return false;
+            }
+        }
+    }
+    if !xs.is_empty() {
+        let x = *r.pick(xs);
+        match guard(|| c.push(x)) {
+            Ok(Some(Ok(()))) => {
+                put(tr, st, json!({"op":"push","x":c.show(x),"ok":true}));
+            }
+            Ok(Some(Err(e))) => {
+                put(tr, st, json!({"op":"push","x":c.show(x),"ok":false,"err":e}));
+            }
+            Ok(None) => {}
+            Err(m) => {
+                put(tr, st, panic_ev("push", &m, json!({"x":c.show(x)})));
+                return false;
+            }
+        }
+        if let Some(e) = ev_back(c.as_ref()) {
+            put(tr, st, e);
+        }
+        if put(tr, st, ev_readback(c.as_ref(), cap, "get")) {
+            return false;
+        }
+    }
+    // swap with a second container built from a permutation of a part of the input
+    let mut ys: Vec<i128> = xs.iter().copied().rev().take(n / 2 + 1).collect();
+    r.shuffle(&mut ys);
+    match guard(|| c.swap_new(&ys)) {
+        Ok(Some(())) => {
+            let shown: Vec<String> = ys.iter().map(|&y| c.show(y)).collect();
+            match full_read(c.as_ref(), cap) {
+                Ok(out) => {
+                    put(tr, st, json!({"op":"swap","xs":shown,"out":out}));
+                }
+                Err(e) => {
+                    put(tr, st, e);
+                    return false;
+                }
+            }
+        }
+        Ok(None) => {}
+        Err(m) => {
+            put(tr, st, panic_ev("swap", &m, json!({})));
+            return false;
+        }
+    }
+    // clear, the refusal of back() on an empty vector, refill
+    match guard(|| c.clear()) {
+        Ok(Some(())) => {
+            let after = guard(|| c.len()).unwrap_or(usize::MAX);
+            put(tr, st, json!({"op":"clear","n":after}));
+            if let Some(e) = ev_back(c.as_ref()) {
+                put(tr, st, e);
+            }
+            let mut le = json!({"op":"len","n":after});
+            if let Ok(Some(b)) = guard(|| c.is_empty()) {
+                le["empty"] = json!(b);
+            }
+            put(tr, st, le);
+            for &x in xs.iter().take(9) {
+                match guard(|| c.push(x)) {
+                    Ok(Some(Ok(()))) => {
+                        put(tr, st, json!({"op":"push","x":c.show(x),"ok":true}));
+                    }
+                    Ok(Some(Err(e))) => {
+                        put(tr, st, json!({"op":"push","x":c.show(x),"ok":false,"err":e}));
+                    }
+                    Ok(None) => break,
+                    Err(m) => {
+                        put(tr, st, panic_ev("push", &m, json!({"x":c.show(x)})));
+                        return false;
+                    }
+                }
+            }
+            if put(tr, st, ev_readback(c.as_ref(), cap, "get")) {
+                return false;
+            }
+        }
+        Ok(None) => {}
+        Err(m) => {
+            put(tr, st, panic_ev("clear", &m, json!({})));
+            return false;
+        }
+    }
+    true
 }
 
 /// incremental case: empty container, pushes in chunks, complete read-back at every checkpoint
@@ -1108,13 +1609,29 @@ const LENS_ALL: &[usize] = &[0, 1, 2, 63, 64, 65, 127, 128, 129, 255, 256, 257, 
 const LENS_BIG: &[usize] = &[10000, 10001];
 
 /// the cases of one subject: (dom, lo, hi, profile, n)
-fn cases(a: &Args, name: &str) -> Vec<(&'static str, i128, i128, &'static str, usize)> {
-    let mut v = vec![];
+/// bit widths a subject can be made to choose (for the width sweeps), per value domain
+fn type_bits(name: &str) -> u32 {
+    let p: Vec<&str> = name.split(':').collect();
+    match (p[0], p[1]) {
+        ("intvec", "u8") | ("intvec", "i8") => 8,
+        ("intvec", "u16") | ("intvec", "i16") => 16,
+        ("intvec", "u32") | ("intvec", "i32") | ("uintvec", _) | (_, "u32") | (_, "i32") => 32,
+        (_, "risk") => 58,
+        _ => 64,
+    }
+}
+
+fn cases(a: &Args, name: &str) -> Vec<(&'static str, i128, i128, String, usize)> {
+    let mut v: Vec<(&'static str, i128, i128, String, usize)> = vec![];
     let fam = fam_of(name);
     let doms = domains(name);
     let quick = !a.thorough();
     // the delegating IntVec constructors take every second (profile, length) pair in the quick tier
     let half = quick && fam == "intvec" && !name.ends_with(":from_slice");
+    // construction-route twins and flipped-flag twins: their own value is the route / the flag; the quick tier
+    // gives them the boundary lengths only
+    let twin = matches!(variant_of(name), "new_set" | "resize_set" | "risk")
+        || (fam == "sorted" && SORTED_TWINS.contains(&variant_of(name).split(':').next().unwrap_or("")));
     for (di, &(dom, lo, hi)) in doms.iter().enumerate() {
         let secondary = di > 0;
         for (pi, &p) in PROFILES.iter().enumerate() {
@@ -1136,6 +1653,17 @@ fn cases(a: &Args, name: &str) -> Vec<(&'static str, i128, i128, &'static str, u
                     lens = vec![2, bs + 1];
                 }
             }
+            if quick && twin {
+                if fam == "sorted" {
+                    let bs = sorted_cfg(variant_of(name)).block_size();
+                    lens = if secondary { vec![bs + 1] } else { vec![0, 1, bs - 1, bs, 2 * bs + 1] };
+                } else {
+                    lens = if secondary { vec![65] } else { vec![0, 1, 2, 65, 257] };
+                }
+                if pi % 2 == 1 && !secondary {
+                    lens.retain(|&n| n <= 2);
+                }
+            }
             for (li, &n) in lens.iter().enumerate() {
                 if quick && secondary && fam != "sorted" && !(n == 0 || n == 2 || n == 65 || n == 257) {
                     continue;
@@ -1146,16 +1674,16 @@ fn cases(a: &Args, name: &str) -> Vec<(&'static str, i128, i128, &'static str, u
                 if half && n > 2 && (pi + li) % 2 == 1 {
                     continue;
                 }
-                v.push((dom, lo, hi, p, n));
+                v.push((dom, lo, hi, p.to_string(), n));
             }
             // outliers confined to the trailing partial block: lengths just past a block multiple, above the
             // 1000-element threshold of the block-based strategy (every constructor, both tiers)
             if p == "tail_outlier" && fam != "sorted" && !secondary {
                 for &n in &[1029usize, 1100, 2051, 4099] {
-                    v.push((dom, lo, hi, p, n));
+                    v.push((dom, lo, hi, p.to_string(), n));
                 }
                 if a.thorough() {
-                    v.push((dom, lo, hi, p, 12803));
+                    v.push((dom, lo, hi, p.to_string(), 12803));
                 }
             }
             // long inputs (the IntVec strategy switch sits at 10 000 elements / 16 KiB)
@@ -1173,12 +1701,12 @@ fn cases(a: &Args, name: &str) -> Vec<(&'static str, i128, i128, &'static str, u
                                 && CTORS[((k0 % 3) as usize + pi) % 3] == name.rsplit(':').next().unwrap_or("")
                                 && ((k0 >> 8) as usize + pi / 2 + n) % 2 == 0
                         }
-                        "sorted" => !secondary && name.ends_with("b6") && pi % 4 == (n % 4),
-                        _ => !secondary && pi % 4 == n % 4,
+                        "sorted" => !twin && !secondary && name.ends_with("b6") && pi % 4 == (n % 4),
+                        _ => !twin && !secondary && pi % 4 == n % 4,
                     }
                 };
                 if take {
-                    v.push((dom, lo, hi, p, n));
+                    v.push((dom, lo, hi, p.to_string(), n));
                 }
             }
             // thorough: 70 000 elements (well beyond the strategy switch) for a rotating quarter of the profiles
@@ -1190,9 +1718,169 @@ fn cases(a: &Args, name: &str) -> Vec<(&'static str, i128, i128, &'static str, u
                 _ => rot4,
             };
             if a.thorough() && !secondary && big70 {
-                v.push((dom, lo, hi, p, 70000));
+                v.push((dom, lo, hi, p.to_string(), 70000));
             }
         }
+    }
+    // ---- width sweeps on the full domain of the subject: every bit width the container can choose, with
+    // the top bit of that width set, lengths 67 / 99 / 131 (all index residues modulo 8, one SIMD chunk of 64
+    // plus a partial one)
+    if fam != "sorted" {
+        let (dom, lo, hi0) = *doms.iter().find(|d| d.0 == "u64").unwrap_or(&doms[0]);
+        // containers that store raw values (no minimum subtracted) choose the width of the largest value
+        let raw = matches!(variant_of(name), "push" | "new_set" | "resize_set") && fam != "uintvec";
+        let bits = type_bits(name);
+        let ci = CTORS.iter().position(|c| name.ends_with(&format!(":{c}"))).unwrap_or(0);
+        for k in 1..=bits {
+            let n = [67usize, 99, 131][(k % 3) as usize];
+            let (dom, hi) = if raw { ("wk", ((1i128 << k) - 1).min(hi0)) } else { (dom, hi0) };
+            v.push((dom, lo, hi, format!("w{k}"), n));
+            if fam == "intvec" || fam == "uintvec" {
+                // sorted inputs: the delta strategy (deltas up to 2^32), while the sum of the steps fits the type
+                if k <= 33 && k + 7 <= bits + 1 {
+                    v.push((dom, lo, hi, format!("dw{k}"), n));
+                }
+                // above 1000 elements and 16 bits: the block-based strategy (offset width = k; base width = k)
+                let mine = !quick || (k as usize + ci) % 3 == 0;
+                if k > 16 && mine && fam == "intvec" {
+                    if !quick || k % 2 == 0 || k > bits - 2 {
+                        v.push((dom, lo, hi, format!("w{k}"), 1029 + (k as usize % 2) * 71));
+                    }
+                    if !quick || k % 2 == 1 || k > bits - 2 {
+                        v.push((dom, lo, hi, format!("bs{k}"), 1100 + (k as usize % 3) * 37));
+                    }
+                }
+                if !quick && fam == "intvec" && ci == 0 && k % 4 == 0 {
+                    v.push((dom, lo, hi, format!("w{k}"), 10003 + k as usize));
+                    v.push((dom, lo, hi, format!("bs{k}"), 10067 + k as usize));
+                }
+                if fam == "uintvec" && (k % 4 == 0 || !quick) {
+                    v.push((dom, lo, hi, format!("w{k}"), 1029));
+                }
+            }
+        }
+    }
+    v
+}
+
+/// the width sweep of SortedUintVec: every sample_width 16..64 with offset widths 8..32, both use_simd
+/// settings, all block sizes; values reach the top bit of the sample field and of the offset field, the
+/// last (partial) block included
+fn sorted_sweep(tr: &mut Tracer, st: &mut Stats, a: &Args, r0: &Rng) -> usize {
+    let mut ncases = 0;
+    for sw in 16u32..=64 {
+        for rep in 0..2u32 {
+            let ow = if rep == 0 { 8 + (sw - 16) / 2 } else { 32 - (sw - 16) / 2 };
+            let simd = (sw + rep) % 2 == 0;
+            let log2 = 4 + (sw + 2 * rep) % 5;
+            if !a.thorough() && rep == 1 && sw % 2 == 0 {
+                continue;
+            }
+            let bs = 1usize << log2;
+            let n = 2 * bs + bs / 2 + 1;
+            let cfgname = format!("sorted:sw{sw}o{ow}{}:b{log2}", if simd { "_s" } else { "_ns" });
+            let mut r = r0.derive(&cfgname);
+            let smax: u128 = if sw == 64 { u64::MAX as u128 } else { (1u128 << sw) - 1 };
+            let omax: u128 = (1u128 << ow) - 1;
+            let nb = (n + bs - 1) / bs;
+            let mut xs: Vec<i128> = Vec::with_capacity(n);
+            for b in 0..nb {
+                // block bases: 0, ..., and the last block as high as the sample field allows
+                let base: u128 = if b == 0 {
+                    0
+                } else if b + 1 == nb {
+                    smax - omax.min(smax)
+                } else {
+                    (smax >> 1) + 1 + (b as u128) * (omax + 1).min(smax >> 3)
+                };
+                let in_blk = bs.min(n - b * bs);
+                // offsets ascend to the all-ones offset at the last element of the block
+                let mut offs: Vec<u128> = (0..in_blk).map(|_| rand_in(&mut r, 0, omax as i128) as u128).collect();
+                offs.sort_unstable();
+                offs[0] = 0;
+                if in_blk > 1 {
+                    offs[in_blk - 1] = omax;
+                }
+                for o in offs {
+                    xs.push((base + o).min(u64::MAX as u128) as i128);
+                }
+            }
+            xs.sort_unstable();
+            bulk_case(tr, st, a, &cfgname, "sweep", &format!("sw{sw}o{ow}"), &xs, &mut r, false);
+            ncases += 1;
+        }
+    }
+    // configurations outside the documented limits: with_config / finish must refuse them (an accepted
+    // one is judged like any other)
+    for (k, (log2, ow, sw)) in [(3u8, 16u8, 32u8), (9, 16, 32), (6, 7, 32), (6, 33, 40), (6, 16, 15), (6, 16, 65), (6, 0, 0)].iter().enumerate() {
+        let cfg = SortedUintVecConfig { log2_block_units: *log2, offset_width: *ow, sample_width: *sw, use_simd: k % 2 == 0 };
+        let xs: Vec<i128> = (0..150).map(|i| i * 3).collect();
+        let name = format!("sorted:invalid{k}:b{log2}");
+        let mut m = meta(&name, a, json!({"mode":"invalid-config","cfg":[log2, ow, sw]}));
+        m["d"] = describe("sorted:default:b6", &xs);
+        tr.reset("packedseq", &name, m);
+        let res = guard(|| -> Result<Box<dyn Cont>, String> {
+            let mut b = SortedUintVecBuilder::with_config(cfg);
+            b.extend(xs.iter().map(|&x| x as u64)).map_err(|e| e.to_string())?;
+            let v = b.finish().map_err(|e| e.to_string())?;
+            Ok(Box::new(SV { b: None, v: Some(v), notes: vec![] }))
+        });
+        match res {
+            Err(msg) => {
+                put(tr, st, panic_ev("build", &msg, json!({})));
+            }
+            Ok(Err(e)) => {
+                st.build_refused += 1;
+                put(tr, st, json!({"op":"build","xs":[],"ok":false,"err":e}));
+            }
+            Ok(Ok(c)) => {
+                st.builds += 1;
+                put(tr, st, json!({"op":"build","xs":xs.iter().map(|x| x.to_string()).collect::<Vec<_>>(),"ok":true}));
+                let mut r = r0.derive(&name);
+                read_all(tr, st, c.as_ref(), xs.len(), &mut r, true);
+            }
+        }
+        ncases += 1;
+    }
+    ncases
+}
+
+/// every way to obtain an empty container of a family
+fn empties(fam: &str) -> Vec<(&'static str, Box<dyn Cont>)> {
+    let mut v: Vec<(&'static str, Box<dyn Cont>)> = vec![];
+    match fam {
+        "intvec" => {
+            v.push(("IntVec::<u32>::new", Box::new(IV(IntVec::<u32>::new()))));
+            v.push(("IntVec::<i64>::default", Box::new(IV(IntVec::<i64>::default()))));
+            v.push(("IntVec::<u8>::new", Box::new(IV(IntVec::<u8>::new()))));
+        }
+        "uintvec" => {
+            v.push(("UintVector::new", Box::new(UV(UintVector::new()))));
+            v.push(("UintVector::default", Box::new(UV(UintVector::default()))));
+            v.push(("UintVector::with_capacity", Box::new(UV(UintVector::with_capacity(64)))));
+        }
+        "uvm0" => {
+            v.push(("UintVecMin0::new_empty", Box::new(M0 { v: UintVecMin0::new_empty(), min: Min::Usize(0) })));
+            v.push(("UintVecMin0::default", Box::new(M0 { v: UintVecMin0::default(), min: Min::Usize(0) })));
+            v.push(("UintVecMin0::new(0, 255)", Box::new(M0 { v: UintVecMin0::new(0, 255), min: Min::Usize(0) })));
+        }
+        "zipint" => {
+            v.push(("ZipIntVec::new_empty", Box::new(ZI { v: ZipIntVec::new_empty(), u32_: false })));
+            v.push(("ZipIntVec::default", Box::new(ZI { v: ZipIntVec::default(), u32_: false })));
+            v.push(("ZipIntVec::new(0, 5, 9)", Box::new(ZI { v: ZipIntVec::new(0, 5, 9), u32_: false })));
+        }
+        "sorted" => {
+            if let Ok(x) = SortedUintVec::new() {
+                v.push(("SortedUintVec::new", Box::new(SV { b: None, v: Some(x), notes: vec![] })));
+            }
+            v.push(("SortedUintVec::default", Box::new(SV { b: None, v: Some(SortedUintVec::default()), notes: vec![] })));
+            for c in ["perf:b7", "mem:b4", "wide:b8"] {
+                if let Ok(x) = SortedUintVec::with_config(sorted_cfg(c)) {
+                    v.push(("SortedUintVec::with_config", Box::new(SV { b: None, v: Some(x), notes: vec![] })));
+                }
+            }
+        }
+        _ => {}
     }
     v
 }
@@ -1200,21 +1888,56 @@ fn cases(a: &Args, name: &str) -> Vec<(&'static str, i128, i128, &'static str, u
 fn run_subject(tr: &mut Tracer, a: &Args, name: &str) -> Value {
     let mut st = Stats::new();
     let rng0 = Rng::new(a.seed).derive(name);
+    if variant_of(name) == "empty" {
+        let mut r = rng0.clone();
+        let mut n = 0;
+        for (ctor, mut c) in guard(|| empties(fam_of(name))).unwrap_or_default() {
+            let mut m = meta(name, a, json!({"mode":"empty","ctor":ctor}));
+            m["d"] = describe(name, &[]);
+            tr.reset("packedseq", name, m);
+            put(tr, &mut st, json!({"op":"build","xs":[],"ok":true}));
+            st.builds += 1;
+            if read_all(tr, &mut st, c.as_ref(), 0, &mut r, true) {
+                if let Some(e) = ev_back(c.as_ref()) {
+                    put(tr, &mut st, e);
+                }
+                // an empty container can be filled where it offers push
+                let mut pushed = vec![];
+                for x in [3i128, 1, 200, 7] {
+                    if let Ok(Some(Ok(()))) = guard(|| c.push(x)) {
+                        pushed.push(c.show(x));
+                    }
+                }
+                if !pushed.is_empty() {
+                    put(tr, &mut st, json!({"op":"extend","xs":pushed}));
+                    put(tr, &mut st, ev_readback(c.as_ref(), 16, "get"));
+                }
+            }
+            n += 1;
+        }
+        let mut j = st.json();
+        j["cases"] = json!(n);
+        return j;
+    }
     let mut ncases = 0usize;
-    let runs0 = tr.runs;
+    if name == "sorted:sweep" {
+        let n = sorted_sweep(tr, &mut st, a, &rng0);
+        let mut j = st.json();
+        j["cases"] = json!(n);
+        return j;
+    }
     for (dom, lo, hi, profile, n) in cases(a, name) {
+        let profile = profile.as_str();
+        let sweep = profile.starts_with('w') || profile.starts_with("dw") || profile.starts_with("bs");
         let mut r = rng0.derive(&format!("{dom}/{profile}/{n}"));
         let mut xs = gen(profile, n, lo, hi, &mut r);
-        if tr.runs > runs0 {
-            tr.max_events = usize::MAX;
-        }
         ncases += 1;
         if incremental(name) {
             if n == 0 || (n > 1000 && !a.thorough() && profile != "small" && profile != "outliers" && profile != "runs") {
                 continue;
             }
             // only the largest length class of a (dom, profile): the checkpoints cover the shorter ones
-            if n != 1000 && n != 10001 && n != 70000 {
+            if n != 1000 && n != 10001 && n != 70000 && !sweep {
                 continue;
             }
             let mut cps: Vec<usize> = LENS_ALL.iter().copied().filter(|&c| c > 0).collect();
@@ -1230,8 +1953,10 @@ fn run_subject(tr: &mut Tracer, a: &Args, name: &str) -> Value {
         }
         bulk_case(tr, &mut st, a, name, dom, profile, &xs, &mut r, false);
         // set() where offered: a second run on the same input
-        let offers_set = matches!(fam_of(name), "uvm0" | "zipint");
-        if offers_set && (n == 2 || n == 65 || (a.thorough() && (n == 257 || n == 1000))) {
+        // set() and the other entry points (back, resize, clone, swap, clear ...) where offered: a second run
+        let offers_set = matches!(fam_of(name), "uvm0" | "zipint" | "intvec");
+        let quick_pick = a.thorough() || sweep || ncases % 3 == 0;
+        if offers_set && quick_pick && (n == 2 || n == 65 || (sweep && n == 99) || (a.thorough() && (n == 257 || n == 1000))) {
             bulk_case(tr, &mut st, a, name, dom, profile, &xs, &mut r, true);
         }
     }
@@ -1240,13 +1965,19 @@ fn run_subject(tr: &mut Tracer, a: &Args, name: &str) -> Value {
     j
 }
 
+/// subject filter; the runs of the width sweep carry their configuration as subject name
+fn wanted(a: &Args, s: &str) -> bool {
+    a.wants(s) || (s == "sorted:sweep" && a.subject.as_deref().map_or(false, |f| f.split(',').any(|p| p.starts_with("sorted:sw"))))
+}
+
 fn group(a: &Args) {
     let g = a.get("group").unwrap_or("").to_string();
     let mut tr = Tracer::new(&a.out, &format!("ps-{}", g.replace(':', "_")));
+    // files rotate at run boundaries; a few thousand events (5-10 MB) per file keep the JVM count low and the
+    // largest file small
+    tr.max_events = a.get_u64("file_events", 4000) as usize;
     let mut per_subject = serde_json::Map::new();
-    for name in subjects().iter().filter(|s| group_of(s) == g && a.wants(s)) {
-        // one trace file per subject (rotation happens at the next reset)
-        tr.max_events = 0;
+    for name in subjects().iter().filter(|s| group_of(s) == g && wanted(a, s)) {
         per_subject.insert(name.clone(), run_subject(&mut tr, a, name));
         tr.flush();
     }
@@ -1310,7 +2041,7 @@ fn run_witnesses(a: &Args, tr: &mut Tracer) -> usize {
 
 fn drive(a: &Args) {
     let mut groups: Vec<String> = vec![];
-    for s in subjects().iter().filter(|s| a.wants(s)) {
+    for s in subjects().iter().filter(|s| wanted(a, s)) {
         let g = group_of(s);
         if !groups.contains(&g) {
             groups.push(g);
